@@ -37,7 +37,7 @@ def struct_digest(st):
                                    default=str).encode()).hexdigest()[:12]
 
 
-def solve_campaign(ctx, n_systems, gen_kw=None, case_kw=None, filt=None, variants=1, post=None, matrix=0, skel=0, skel_want=None):
+def solve_campaign(ctx, n_systems, gen_kw=None, case_kw=None, filt=None, variants=1, post=None, matrix=0, skel=0, skel_want=None, skel_big=False):
     """generate systems, solve, validate.  filt(state_dict) selects structures of interest;
     post(system, case list, rng, next id) may append further cases for the same system"""
     res = Result()
@@ -97,7 +97,7 @@ def solve_campaign(ctx, n_systems, gen_kw=None, case_kw=None, filt=None, variant
     if skel:
         # states of the exhaustively checked skeleton model MCSkel (every small tree x liveness pattern x phase lists)
         import skel as _sk
-        sstates, scnt = _sk.skel_states(ctx)
+        sstates, scnt = _sk.skel_states(ctx, big=skel_big)
         res.mc.append(scnt)
         if not scnt["ok"]:
             if "is violated" in scnt["out"]:
@@ -298,10 +298,10 @@ STD_ASSUME = ["numbers are compared in exact decimal arithmetic with the two tol
 
 
 def _run(ctx, prop, n_q, n_t, rule, gen_kw=None, case_kw=None, filt=None, variants=1, post=None, extra_fixed=(), prefix=None, matrix=(0, 0),
-         skel=(0, 0), skel_want=None):
+         skel=(0, 0), skel_want=None, skel_big=False):
     n = n_q if ctx.quick else n_t
     res, cases = solve_campaign(ctx, n, gen_kw, case_kw, filt, variants, post, matrix=matrix[0] if ctx.quick else matrix[1],
-                                skel=skel[0] if ctx.quick else skel[1], skel_want=skel_want)
+                                skel=skel[0] if ctx.quick else skel[1], skel_want=skel_want, skel_big=skel_big)
     if prop in ("C01", "C02"):
         mc_laws(ctx, res)
     if extra_fixed:
@@ -363,7 +363,8 @@ def run_c05(ctx):
                 "systems with a PMux (1-4 inputs, fed from sources / components / the same source, scalar and per-input rs, "
                 "0 V and phase-inactive inputs); mux rows are held to the C05 clauses",
                 gen_kw=dict(neg=0.15, zero_src=0.3, tables=0.2), case_kw=std_case_kw, filt=has_mux, matrix=(200, 2000),
-                skel=(200, 12000), skel_want=lambda S: any(c["cls"] == "PMux" and len(S["par"][n]) > 1 for n, c in S["comps"].items()))
+                skel=(200, 12000), skel_big=True,
+                skel_want=lambda S: any(c["cls"] == "PMux" and len(S["par"][n]) > 1 for n, c in S["comps"].items()))
 
 
 def has_phases(sysst):
@@ -394,6 +395,14 @@ def run_c06(ctx):
                 gen_kw=dict(neg=0.1, tables=0.15), case_kw=std_case_kw, filt=has_phases, post=c06_post, matrix=(250, 2000))
 
 
+def _two_sources_joined(S):
+    """two sources, and (three times out of four) a mux with several inputs that joins them"""
+    if sum(1 for c in S["comps"].values() if c["cls"] == "Source") < 2:
+        return False
+    mux = any(c["cls"] == "PMux" and len(S["par"][n]) > 1 for n, c in S["comps"].items())
+    return mux or (hash(json.dumps(S, sort_keys=True, default=str)) % 4 == 0)
+
+
 def c07_post(s, cases, rng):
     """one phase solved on its own with energy=True: its 24 h energy is still power x the phase's share of the whole
     cycle (all declared phases), and Domain / Subsystem / total rows obey the same relations"""
@@ -410,7 +419,7 @@ def run_c07(ctx):
                 "Domain column, Subsystem, System total, System average and energy cells are recomputed from the component rows",
                 gen_kw=dict(neg=0.15, zero_src=0.15, tables=0.1),
                 case_kw=lambda rng, s: dict(ta=25.0, energy=rng.random() < 0.7, rail_rep=False), post=c07_post,
-                skel=(150, 8000), skel_want=lambda S: sum(1 for c in S["comps"].values() if c["cls"] == "Source") > 1)
+                skel=(200, 8000), skel_big=True, skel_want=_two_sources_joined)
 
 
 def has_rails(sysst):
